@@ -8,6 +8,8 @@ import (
 	"go/token"
 	"go/types"
 	"strconv"
+
+	"golang.org/x/tools/go/ssa"
 	"strings"
 )
 
@@ -585,7 +587,31 @@ func (e *Env) evalIdent(t *ast.Ident) (Val, error) {
 	if v, ok, err := e.lookupObj(e.pkg, t.Name); ok || err != nil {
 		return v, err
 	}
+	// a local variable of the verified function that is not defined on this path: its value is arbitrary here
+	if e.frame != nil && e.frame.fn != nil {
+		if ty := localVarType(e.frame.fn, t.Name); ty != nil {
+			return Val{e.v.Y.fresh(e.v.D, "undef_"+t.Name, e.v.sortOf(ty)), ty}, nil
+		}
+	}
 	return Val{}, fmt.Errorf("unknown identifier %s", t.Name)
+}
+
+func localVarType(fn *ssa.Function, name string) types.Type {
+	for _, b := range fn.Blocks {
+		for _, in := range b.Instrs {
+			if d, ok := in.(*ssa.DebugRef); ok {
+				if obj := d.Object(); obj != nil && obj.Name() == name {
+					if d.IsAddr {
+						if pt, ok := d.X.Type().Underlying().(*types.Pointer); ok {
+							return pt.Elem()
+						}
+					}
+					return d.X.Type()
+				}
+			}
+		}
+	}
+	return nil
 }
 
 func (e *Env) coerceNil(a, b Val) (Val, Val) {
